@@ -77,13 +77,13 @@ def run(ctx):
         R.ob('C18.child', ('trace::Context child', 'fresh span id'), fresh(P, P._field(agg, f_span)),
              'each hop gets a fresh span id (not derived from the parent\'s)', [nc.loc(s)])
 
-    def check_ctx_sources(tag, where, tc_term, parent_pred, span_pred, sites):
+    def check_ctx_sources(tag, where, tc_term, parent_pred, span_pred, sites, follow=None):
         """tc_term: the transmitted trace context.  Allowed per field: span-derived (try_from(span)) or child of parent."""
         seen_span = seen_child = False
         ok_all = True
         det = []
         for fld in (f_trace, f_samp, f_span):
-            rs = P.root(P._field(tc_term, fld))
+            rs = P.root(P._field(tc_term, fld), through_params=True, callers=follow) if follow else P.root(P._field(tc_term, fld))
             if not rs:
                 ok_all = False
                 det.append('%s: no source' % fld)
@@ -202,6 +202,7 @@ def run(ctx):
     if len(req_param) != 1:
         raise CannotDecide('start_request: request parameter')
     req_param = req_param[0]
+    from .common import deep_bodies
     for i, j, s in sr.aggregates('server::TrackedRequest'):
         rq = P._field(('agg', sr.id, i, j), 'request')
         c = P._field(rq, 'context')
@@ -209,13 +210,12 @@ def run(ctx):
         check_ctx_sources('C18.server', 'BaseChannel request registration', tc,
                           lambda r, p, fld: r == ('param', sr.id, req_param) and P.fpath(p) == ('context', ctx_tc, fld),
                           lambda r, p: (P.is_call(r, 'tracing::Span::new', 'tracing::Span::new_root', 'tracing::Span::child_of', '__disabled_span', 'tracing::Span::none')) and ('t', 'conv') in p,
-                          [sr.loc(s)])
+                          [sr.loc(s)], follow={x.id for x in deep_bodies(F, sr)})     # the rewrite may sit in a private helper that is lent `&mut request.context`
         dl = P.root(P._field(c, ctx_dl))
         R.ob('C18.server', ('BaseChannel request registration', 'only the trace context is rewritten'),
              bool(dl) and all(r == ('param', sr.id, req_param) and P.fpath(p) == ('context', ctx_dl) for r, p in dl),
              'deadline, id and body of the received request are passed on unchanged', [sr.loc(s)])
     # set_context(&request.context) before deriving from the span
-    from .common import deep_bodies
     srb = deep_bodies(F, sr)
     srb_ids = {x.id for x in srb}
 
@@ -236,7 +236,12 @@ def run(ctx):
         return out_
     sc = sites_reaching(lambda t_: callee_is(t_, 'SpanExt::set_context'))
     tf = sites_reaching(lambda t_: callee_is(t_, 'TryFrom::try_from') and 'trace::Context' in (t_.get('self_ty') or ''))
-    ok = len(sc) == 1 and len(tf) == 1 and cfg.dominates(sr, sc[0][0], tf[0][0]) and sc[0][0] != tf[0][0]
+    ok = len(sc) == 1 and len(tf) == 1
+    if ok and sc[0][0] == tf[0][0] and sc[0][1].id == tf[0][1].id and sc[0][1].id != sr.id:
+        # both in the same private helper: ordered inside it
+        ok = cfg.dominates(sc[0][1], sc[0][2], tf[0][2]) and sc[0][2] != tf[0][2]
+    elif ok:
+        ok = cfg.dominates(sr, sc[0][0], tf[0][0]) and sc[0][0] != tf[0][0]
     if ok:
         ar = P.root(P.operand(sc[0][1], sc[0][3]['args'][1], at=sc[0][2]), through_params=True, callers=srb_ids)
         ok = bool(ar) and all(r == ('param', sr.id, req_param) and P.fpath(p) == ('context',) for r, p in ar)
